@@ -180,6 +180,10 @@ func wrapContext(ctx string, S []string) []string {
 		return []string{"( (\n" + body + "\ntrue\n) & wait ) >/dev/null 2>&1"}
 	case "nested-cmdsubst-subshell":
 		return []string{": \"$( (\n" + body + "\n) ; true )\" 2>/dev/null"}
+	case "zsh-disown-bang":
+		return []string{"{\n" + body + "\ntrue\n} >/dev/null 2>&1 &!"}
+	case "zsh-disown-pipe":
+		return []string{"{\n" + body + "\ntrue\n} >/dev/null 2>&1 &|"}
 	case "coproc-like-bg-subshell":
 		return []string{"(\n" + body + "\ntrue\n) >/dev/null 2>&1 &"}
 	}
